@@ -283,7 +283,7 @@ def _reflected_matrix_operand(
                 right_shape=(rows, cols),
             )
         return [[Constant(other[i, j]) for j in range(cols)] for i in range(rows)]
-    const = Constant(other)
+    const = other if isinstance(other, Expression) else Constant(other)
     return [[const for _ in range(cols)] for _ in range(rows)]
 
 
